@@ -137,7 +137,7 @@ Section Oracles.
   (** an IBTP transaction whose proof is not verified gets a FAILED receipt and changes nothing
       but the sender's nonce and the fee; nothing is announced (repaired event harvesting) *)
   Theorem unverified_frame c e idx s st ib pd t s' rc cnt :
-    d_stale_changer c = false -> d_fee_after_body c = false ->
+    d_stale_changer c = false -> d_fee_after_body (x_fees c) = false ->
     verify st ib pd <> VOk ->
     apply_tx c e idx s (checked H digest rule_validate recover st ib pd t) = (s', rc, cnt) ->
     r_ok rc = false /\
